@@ -23,6 +23,7 @@ import (
 	"encoding/hex"
 	"fmt"
 	"os"
+	"reflect"
 	"regexp"
 	"runtime"
 	"sort"
@@ -84,7 +85,7 @@ func (d *detReader) Read(p []byte) (int, error) {
 func (d *detReader) bytes(n int) []byte {
 	b := make([]byte, n)
 	d.Read(b)
-	return b
+	return spareOf(b, 16) // every drawn byte string is a prefix of a larger array with a sentinel tail
 }
 
 func (d *detReader) intn(n int) int {
@@ -95,8 +96,9 @@ func (d *detReader) intn(n int) int {
 // ---- registry --------------------------------------------------------------------------------
 
 type arg struct {
-	name string
-	obj  interface{} // pointer, slice or map: the shared object handed to the library
+	name  string
+	obj   interface{} // pointer, slice or map: the shared object handed to the library
+	spare bool        // a slice with spare capacity (its tail holds the sentinel pattern and is part of the snapshot)
 }
 
 type entry struct {
@@ -264,6 +266,12 @@ func retClass(es ...*entry) []string {
 				r = append(r, c)
 			}
 		}
+		for _, a := range e.args {
+			if a.spare && !seen["arg:spare_capacity_sentinel"] {
+				seen["arg:spare_capacity_sentinel"] = true
+				r = append(r, "arg:spare_capacity_sentinel")
+			}
+		}
 	}
 	return r
 }
@@ -272,7 +280,10 @@ func retClass(es ...*entry) []string {
 // singleton would be excluded from the scribble oracle (see the report; not listed unless the lead decides so).
 const keyDefaultParams = "poseidon2-getdefaultparameters-returns-shared-singleton"
 
-func sh(name string, obj interface{}) arg { return arg{name, obj} }
+func sh(name string, obj interface{}) arg {
+	v := reflect.ValueOf(obj)
+	return arg{name, obj, v.Kind() == reflect.Slice && v.Cap() > v.Len()}
+}
 
 // get builds the group (once) and records the first, sequential result of every entry.
 func (g *group) get() []*entry {
@@ -461,7 +472,7 @@ func snapArgs(es ...*entry) *snapSet {
 			seen[a.name] = true
 			s.names = append(s.names, a.name)
 			s.objs = append(s.objs, a.obj)
-			s.dig = append(s.dig, snapshot(a.obj))
+			s.dig = append(s.dig, snapshotArg(a.obj))
 		}
 	}
 	return s
@@ -471,7 +482,7 @@ func snapArgs(es ...*entry) *snapSet {
 func (s *snapSet) changed() []string {
 	var r []string
 	for i, o := range s.objs {
-		if snapshot(o) != s.dig[i] {
+		if snapshotArg(o) != s.dig[i] {
 			r = append(r, s.names[i])
 		}
 	}
